@@ -44,7 +44,7 @@ pub fn dec<X: DeserializeOwned>(f: Fmt, b: &[u8]) -> Result<X, String> {
         Fmt::Json => serde_json::from_slice::<X>(b).map_err(|e| e.to_string()),
         Fmt::JsonReader => serde_json::from_reader::<_, X>(b).map_err(|e| e.to_string()),
         Fmt::JsonValue => serde_json::from_slice::<serde_json::Value>(b).and_then(serde_json::from_value::<X>).map_err(|e| e.to_string()),
-        Fmt::Ron => ron::de::from_bytes::<X>(b).map_err(|e| e.to_string()),
+        Fmt::Ron | Fmt::RonNamed => ron::de::from_bytes::<X>(b).map_err(|e| e.to_string()),
         Fmt::MsgPack => rmp_serde::from_slice::<X>(b).map_err(|e| e.to_string()),
     }
 }
@@ -53,6 +53,7 @@ pub fn enc<X: Serialize>(f: Fmt, v: &X) -> Result<Vec<u8>, String> {
     match f {
         Fmt::Json | Fmt::JsonReader | Fmt::JsonValue => serde_json::to_vec(v).map_err(|e| e.to_string()),
         Fmt::Ron => ron::ser::to_string(v).map(|s| s.into_bytes()).map_err(|e| e.to_string()),
+        Fmt::RonNamed => ron::ser::to_string_pretty(v, ron::ser::PrettyConfig::new().struct_names(true)).map(|s| s.into_bytes()).map_err(|e| e.to_string()),
         Fmt::MsgPack => rmp_serde::to_vec(v).map_err(|e| e.to_string()),
     }
 }
@@ -104,7 +105,7 @@ pub fn de_in_place<'a, T: Deserialize<'a>>(f: Fmt, b: &'a [u8], place: &mut T) -
             Ok(v) => T::deserialize_in_place(v, place).is_ok(),
             Err(_) => false,
         },
-        Fmt::Ron => match ron::de::Deserializer::from_bytes(b) {
+        Fmt::Ron | Fmt::RonNamed => match ron::de::Deserializer::from_bytes(b) {
             Ok(mut d) => T::deserialize_in_place(&mut d, place).is_ok() && d.end().is_ok(),
             Err(_) => false,
         },
